@@ -307,3 +307,21 @@ Proof. intros H. pose proof signal_sweep as S. rewrite forallb_forall in S. exac
 
 Lemma sizes : length configs_full = 504 /\ length configs_opts = 32 /\ length (faults_e 13) = 26.
 Proof. vm_compute. auto. Qed.
+
+(* C06: the working directory is entered with the parent's identity -- chdir comes before setgid / setuid (a
+   directory only the parent's user may enter is a valid cwd for a child that then drops its identity), and
+   both ids are applied when both are requested *)
+Definition identity_after_cwd (c : config) : bool :=
+  match o_child_out (run None exec_yes c) with
+  | Started _ eff =>
+    (negb (c_cwd c && c_setuid c) || before 50 1 eff) && (negb (c_cwd c && c_setgid c) || before 50 2 eff)
+    && (negb (c_cwd c && c_setpgid c) || before 50 3 eff)
+    && Bool.eqb (existsb (Nat.eqb 1) eff) (c_setuid c) && Bool.eqb (existsb (Nat.eqb 2) eff) (c_setgid c)
+  | _ => invalid c
+  end.
+
+Lemma identity_sweep : forallb identity_after_cwd (configs_full ++ configs_opts) = true.
+Proof. vm_compute. reflexivity. Qed.
+
+Theorem cwd_entered_with_parent_identity c : In c (configs_full ++ configs_opts) -> identity_after_cwd c = true.
+Proof. intros H. pose proof identity_sweep as S. rewrite forallb_forall in S. exact (S c H). Qed.
